@@ -461,35 +461,70 @@ package core
 
 //@ func (*Path).Process$1
 //@   vars out in t
-//@   property C06
+//@   property C01 C06
 //@   option prelude=trav,json
 //@   option load=gdbi,gripql,jsonpath
 //@   nopanic
-//@   requires fresh: rd(in) == 0 && !closed(out) && in != out && out != nil && in != nil
+//@   requires fresh: rd(in) == 0 && wr(out) == 0 && !closed(out) && in != out && out != nil && in != nil
 //@   requires items: forall j :: 0 <= j && j < len(in) ==> in[j] != nil
-//@   loop 1 invariant open: !closed(out) && 0 <= rd(in) && rd(in) <= len(in)
+//@   loop 1 invariant open: !closed(out) && 0 <= rd(in) && rd(in) <= len(in) && wr(out) == rd(in)
+//@   loop 1 invariant elems: forall j :: 0 <= j && j < rd(in) ==> out[j] == in[j]
+//@   ensures closed: closed(out)
+//@   ensures same: rd(in) == len(in) && wr(out) == len(in) && (forall j :: 0 <= j && j < len(in) ==> out[j] == in[j])
 
 //@ func (*Unwind).Process$1
 //@   vars out in r t v a ok cur i o n o n cur o n
-//@   property C06
+//@   property C01 C06
 //@   option prelude=trav,json
 //@   option load=gdbi,gripql,jsonpath
 //@   nopanic
-//@   requires fresh: rd(in) == 0 && !closed(out) && in != out && out != nil && in != nil
+//@   requires fresh: rd(in) == 0 && wr(out) == 0 && !closed(out) && in != out && out != nil && in != nil
 //@   requires recv: r != nil
 //@   requires items: forall j :: 0 <= j && j < len(in) ==> in[j] != nil
-//@   loop 1 invariant open: !closed(out) && 0 <= rd(in) && rd(in) <= len(in)
+//@   axiom c0: cnt(in, 0) == 0
+//@   axiom cS: forall k :: 0 <= k ==> cnt(in, k + 1) == cnt(in, k) + ite(tSignal(in[k]) || tCurrent(in[k]) == 0, 1, ite(isAList(pathLookup(in[k], r.Field)) && slen(alist(pathLookup(in[k], r.Field))) > 0, slen(alist(pathLookup(in[k], r.Field))), 1))
+//@   loop 1 invariant open: !closed(out) && 0 <= rd(in) && rd(in) <= len(in) && wr(out) == cnt(in, rd(in))
+//@   loop 1 invariant mono: forall j :: 0 <= j && j <= rd(in) ==> cnt(in, j) <= cnt(in, rd(in))
+//@   loop 1 invariant pass: forall j :: 0 <= j && j < rd(in) && (tSignal(in[j]) || tCurrent(in[j]) == 0) ==> out[cnt(in, j)] == in[j]
+//@   loop 2 invariant open: !closed(out) && 0 < rd(in) && rd(in) <= len(in) && !tSignal(in[rd(in) - 1]) && tCurrent(in[rd(in) - 1]) != 0 && t == in[rd(in) - 1] &&
+//@       a == alist(pathLookup(in[rd(in) - 1], r.Field)) && isAList(pathLookup(in[rd(in) - 1], r.Field)) && len(a) > 0 && rangeindex < len(a) &&
+//@       wr(out) == cnt(in, rd(in) - 1) + rangeindex + 1
+//@   loop 2 invariant mono: forall j :: 0 <= j && j <= rd(in) - 1 ==> cnt(in, j) <= cnt(in, rd(in) - 1)
+//@   loop 2 invariant pass: forall j :: 0 <= j && j < rd(in) - 1 && (tSignal(in[j]) || tCurrent(in[j]) == 0) ==> out[cnt(in, j)] == in[j]
+//@   ensures closed: closed(out)
+//@   ensures drained: rd(in) == len(in)
+//@   ensures length: wr(out) == cnt(in, len(in))
+//@   ensures pass: forall j :: 0 <= j && j < len(in) && (tSignal(in[j]) || tCurrent(in[j]) == 0) ==> out[cnt(in, j)] == in[j]
 
 //@ func (*HasKey).Process$1
 //@   vars h out in keys t found key
-//@   property C06
+//@   property C01 C06
 //@   option prelude=trav,json
 //@   option load=gdbi,gripql,jsonpath
 //@   nopanic
-//@   requires fresh: rd(in) == 0 && !closed(out) && in != out && out != nil && in != nil
-//@   requires recv: h != nil
+//@   requires fresh: rd(in) == 0 && wr(out) == 0 && !closed(out) && in != out && out != nil && in != nil
+//@   requires recv: h != nil && soff(h.keys) >= 0
 //@   requires items: forall j :: 0 <= j && j < len(in) ==> in[j] != nil
-//@   loop 1 invariant open: !closed(out) && 0 <= rd(in) && rd(in) <= len(in)
+//@   let n0 = len(h.keys)
+//@   axiom c0: cnt(in, 0) == 0
+//@   axiom cS: forall k :: 0 <= k ==> cnt(in, k + 1) == cnt(in, k) + ite(tSignal(in[k]) || (forall m :: 0 <= m && m < len(h.keys) ==> pathExists(in[k], h.keys[m])), 1, 0)
+//@   loop 1 invariant pos: 0 <= rd(in) && rd(in) <= len(in) && !closed(out) && soff(keys) >= 0 && len(keys) >= 0
+//@   loop 1 invariant keyset: (forall q :: 0 <= q && q < n0 ==> (exists p :: 0 <= p && p < len(keys) && keys[p] == old(h.keys[q]))) &&
+//@       (forall p :: 0 <= p && p < len(keys) ==> (exists q :: 0 <= q && q < n0 && keys[p] == old(h.keys[q])))
+//@   loop 1 invariant sent: wr(out) == cnt(in, rd(in))
+//@   loop 1 invariant mono: forall j :: 0 <= j && j <= rd(in) ==> cnt(in, j) <= cnt(in, rd(in))
+//@   loop 1 invariant elems: forall j :: 0 <= j && j < rd(in) && (tSignal(in[j]) || (forall m :: 0 <= m && m < n0 ==> pathExists(in[j], old(h.keys[m])))) ==> out[cnt(in, j)] == in[j]
+//@   loop 2 invariant pos: 0 < rd(in) && rd(in) <= len(in) && !closed(out) && soff(keys) >= 0 && rangeindex < len(keys) && !tSignal(in[rd(in) - 1]) && t == in[rd(in) - 1]
+//@   loop 2 invariant keyset: (forall q :: 0 <= q && q < n0 ==> (exists p :: 0 <= p && p < len(keys) && keys[p] == old(h.keys[q]))) &&
+//@       (forall p :: 0 <= p && p < len(keys) ==> (exists q :: 0 <= q && q < n0 && keys[p] == old(h.keys[q])))
+//@   loop 2 invariant sent: wr(out) == cnt(in, rd(in) - 1)
+//@   loop 2 invariant mono: forall j :: 0 <= j && j <= rd(in) - 1 ==> cnt(in, j) <= cnt(in, rd(in) - 1)
+//@   loop 2 invariant elems: forall j :: 0 <= j && j < rd(in) - 1 && (tSignal(in[j]) || (forall m :: 0 <= m && m < n0 ==> pathExists(in[j], old(h.keys[m])))) ==> out[cnt(in, j)] == in[j]
+//@   loop 2 invariant found: found <==> (forall m :: 0 <= m && m <= rangeindex ==> pathExists(t, keys[m]))
+//@   ensures closed: closed(out)
+//@   ensures drained: rd(in) == len(in)
+//@   ensures length: wr(out) == cnt(in, len(in))
+//@   ensures elems: forall j :: 0 <= j && j < len(in) && (tSignal(in[j]) || (forall m :: 0 <= m && m < n0 ==> pathExists(in[j], old(h.keys[m])))) ==> out[cnt(in, j)] == in[j]
 
 //@ func (*Distinct).Process$1
 //@   vars out man in g kv t s found i v k
@@ -505,14 +540,18 @@ package core
 
 //@ func (*Marker).Process$1
 //@   vars out in m t
-//@   property C06
+//@   property C01 C06
 //@   option prelude=trav,json
 //@   option load=gdbi,gripql,jsonpath
 //@   nopanic
-//@   requires fresh: rd(in) == 0 && !closed(out) && in != out && out != nil && in != nil
+//@   requires fresh: rd(in) == 0 && wr(out) == 0 && !closed(out) && in != out && out != nil && in != nil
 //@   requires recv: m != nil
 //@   requires items: forall j :: 0 <= j && j < len(in) ==> in[j] != nil
-//@   loop 1 invariant open: !closed(out) && 0 <= rd(in) && rd(in) <= len(in)
+//@   loop 1 invariant open: !closed(out) && 0 <= rd(in) && rd(in) <= len(in) && wr(out) == rd(in)
+//@   loop 1 invariant elems: forall j :: 0 <= j && j < rd(in) ==> (tSignal(in[j]) ==> out[j] == in[j]) && (!tSignal(in[j]) ==> tMark(out[j], m.mark) == tCurrent(in[j]) && tCurrent(out[j]) == tCurrent(in[j]) && !tSignal(out[j]))
+//@   ensures closed: closed(out)
+//@   ensures drained: rd(in) == len(in) && wr(out) == len(in)
+//@   ensures elems: forall j :: 0 <= j && j < len(in) ==> (tSignal(in[j]) ==> out[j] == in[j]) && (!tSignal(in[j]) ==> tMark(out[j], m.mark) == tCurrent(in[j]) && tCurrent(out[j]) == tCurrent(in[j]) && !tSignal(out[j]))
 
 //@ func (*Selector).Process$1
 //@   vars out in s t res mark val
@@ -549,14 +588,18 @@ package core
 
 //@ func (*MarkSelect).Process$1
 //@   vars out in s t m
-//@   property C06
+//@   property C01 C06
 //@   option prelude=trav,json
 //@   option load=gdbi,gripql,jsonpath
 //@   nopanic
-//@   requires fresh: rd(in) == 0 && !closed(out) && in != out && out != nil && in != nil
+//@   requires fresh: rd(in) == 0 && wr(out) == 0 && !closed(out) && in != out && out != nil && in != nil
 //@   requires recv: s != nil
 //@   requires items: forall j :: 0 <= j && j < len(in) ==> in[j] != nil
-//@   loop 1 invariant open: !closed(out) && 0 <= rd(in) && rd(in) <= len(in)
+//@   loop 1 invariant open: !closed(out) && 0 <= rd(in) && rd(in) <= len(in) && wr(out) == rd(in)
+//@   loop 1 invariant elems: forall j :: 0 <= j && j < rd(in) ==> (tSignal(in[j]) ==> out[j] == in[j]) && (!tSignal(in[j]) ==> tCurrent(out[j]) == tMark(in[j], s.mark) && !tSignal(out[j]) && (forall l:Str :: tMark(out[j], l) == tMark(in[j], l)))
+//@   ensures closed: closed(out)
+//@   ensures drained: rd(in) == len(in) && wr(out) == len(in)
+//@   ensures elems: forall j :: 0 <= j && j < len(in) ==> (tSignal(in[j]) ==> out[j] == in[j]) && (!tSignal(in[j]) ==> tCurrent(out[j]) == tMark(in[j], s.mark) && !tSignal(out[j]) && (forall l:Str :: tMark(out[j], l) == tMark(in[j], l)))
 
 
 // Compile (C01/C14): without optimizers and extensions the compiled pipeline's result type
